@@ -94,11 +94,16 @@ class K(Rec):
         self.add_component("w", type=W, tag=self.kw.get("tag", ""))
 
 
+# hard-coded defaults kept in a module-level constant, as real components do: merging must not modify them
+A_DEFAULT_D = {"p": 1, "q": {"r": 1}}
+A_DEFAULT_D_PRISTINE = copy.deepcopy(A_DEFAULT_D)
+
+
 class Root(Rec):
     family = "Root"
 
     def setup(self) -> None:
-        self.add_component("a", type=A, x=1, d={"p": 1, "q": {"r": 1}})
+        self.add_component("a", type=A, x=1, d=A_DEFAULT_D)
 
 
 class RootK(Root):
